@@ -70,11 +70,12 @@ HeaderGarbled(i, t) ==
 HeaderUndone(i, t) ==
   /\ phase = "header" /\ i = AtStart(pos) /\ i # 0 /\ LenIntact(i) /\ ~FixedIntact(i) /\ t >= ltid
   /\ ltid' = t /\ pos' = Ext(i).e /\ UNCHANGED <<F, out, phase, cur>>
-\* fewer than FH bytes left, or (damaged header) status read as 'c': the loop ends
+\* fewer than FH bytes left, or a damaged fixed header whose status reads 'c' (checked before the redundant
+\* length is looked at): the loop ends
 HeaderEOF ==
   /\ phase = "header"
   /\ \/ F.size - pos < FH
-     \/ LET i == AtStart(pos) IN i # 0 /\ LenIntact(i) /\ ~FixedIntact(i)
+     \/ LET i == AtStart(pos) IN i # 0 /\ Dmg(Ext(i).s, Ext(i).s + FH)
   /\ phase' = "done" /\ UNCHANGED <<F, pos, ltid, out, cur>>
 \* any other outcome is an error; a clean header with an id that does not go back is never refused
 MustAccept == LET i == AtStart(pos) IN i # 0 /\ FixedIntact(i) /\ TidOf(i) >= ltid
